@@ -1,6 +1,6 @@
 import RTV.Model.Choice
 import RTV.Model.Preprocess
-import RTV.Gen.Regexes
+import RTV.Gen.RegexesChoice
 import RTV.Gen.CharTables
 import RTV.Gen.Emoji
 /-! The environment of the boolean model built from the regenerated data: the rewritten True/False regexes, the
